@@ -20,6 +20,7 @@ import WzVerif.Model.Containers
 import WzVerif.Model.Http
 import WzVerif.Gen.Views
 import WzVerif.Gen.ResponseProps
+import WzVerif.Gen.CacheSetTable
 namespace Wz.Views
 open Wz Hdr PyDict
 
@@ -202,6 +203,40 @@ def getValue (d : ODict) (key : Str) (emptyTrue : Bool) (ty : Ty) : Got :=
 /-- `_del_cache_value(key)` -/
 def delValue (d : ODict) (key : Str) : Out ODict Unit :=
   if has d key then ⟨erase d key, true, .ok ()⟩ else ⟨d, false, .ok ()⟩
+
+/-! comparison with the regenerated table of `_set_cache_value` / `_get_cache_value` -/
+
+def valOfCode (code : Str) : Option Val :=
+  match code with
+  | ['~'] => some .none
+  | ['t'] => some (.bool true)
+  | ['f'] => some (.bool false)
+  | 'i' :: r => (pyInt r).map .int
+  | 's' :: r => some (.str r)
+  | _ => none
+
+def tyOfName (n : Str) : Ty := if n == "bool".toList then .bool else if n == "int".toList then .int else .str
+
+/-- what the model predicts for one row of `Gen.CacheSetTable.rows`: (stored, typed read) -/
+def tableRow (tyName code : Str) (present : Bool) : Str × Str :=
+  let ty := tyOfName tyName
+  let d : ODict := if present then [(['k'], some "old".toList)] else []
+  match valOfCode code with
+  | none => (['?'], ['?'])
+  | some v =>
+    let r := setValue d ['k'] ty v
+    let stored : Str := match r.res with
+      | .error e => e.toList
+      | .ok _ => match get? r.st ['k'] with
+        | none => "absent".toList
+        | some none => "none".toList
+        | some (some t) => "str:".toList ++ t
+    let got : Str := match getValue r.st ['k'] false ty with
+      | .none => "none".toList
+      | .bool b => if b then "true".toList else "false".toList
+      | .int i => "int:".toList ++ intText i
+      | .str t => "str:".toList ++ t
+    (stored, got)
 
 inductive Op where
   /-- `cc.<attr> = value` for the directive `key` of type `ty` -/
